@@ -282,15 +282,21 @@ type condLeaf struct {
 // condClass walks the AND/OR/paren skeleton. inClass: OR only over time-free operands, every time
 // leaf one of the five comparisons against a listed literal form. hasTime: some time leaf below.
 func condClass(e influxql.Expr, now time.Time, hasValuer bool, loc *time.Location, leaves map[influxql.Expr]*condLeaf) (inClass, hasTime bool) {
+	return condClassC(e, now, hasValuer, loc, leaves, false)
+}
+
+// condClassC: allowCalls admits function calls inside predicates on tags and fields (C18 evaluates
+// them with a CallValuer).
+func condClassC(e influxql.Expr, now time.Time, hasValuer bool, loc *time.Location, leaves map[influxql.Expr]*condLeaf, allowCalls bool) (inClass, hasTime bool) {
 	switch v := e.(type) {
 	case *influxql.ParenExpr:
-		return condClass(v.Expr, now, hasValuer, loc, leaves)
+		return condClassC(v.Expr, now, hasValuer, loc, leaves, allowCalls)
 	case *influxql.BooleanLiteral:
 		return true, false
 	case *influxql.BinaryExpr:
 		if v.Op == influxql.AND || v.Op == influxql.OR {
-			lc, lt := condClass(v.LHS, now, hasValuer, loc, leaves)
-			rc, rt := condClass(v.RHS, now, hasValuer, loc, leaves)
+			lc, lt := condClassC(v.LHS, now, hasValuer, loc, leaves, allowCalls)
+			rc, rt := condClassC(v.RHS, now, hasValuer, loc, leaves, allowCalls)
 			if v.Op == influxql.OR && (lt || rt) {
 				return false, true
 			}
@@ -302,12 +308,25 @@ func condClass(e influxql.Expr, now time.Time, hasValuer bool, loc *time.Locatio
 		} else if isTimeVarRef(v.RHS) {
 			lf = &condLeaf{op: v.Op, timeLHS: false, other: v.LHS}
 		} else {
-			// a predicate on tags and fields; now() inside it has no meaning for EvalBool
-			ok := true
+			// a predicate on tags and fields: a comparison or regex match (always boolean) or a
+			// constant that Reduce folds to a boolean; now() inside it has no meaning for EvalBool
+			ok := false
+			switch v.Op {
+			case influxql.EQ, influxql.NEQ, influxql.LT, influxql.LTE, influxql.GT, influxql.GTE, influxql.EQREGEX, influxql.NEQREGEX:
+				ok = true
+			default:
+				var nv influxql.Valuer
+				if hasValuer {
+					nv = &influxql.NowValuer{Now: now, Location: loc}
+				}
+				_, ok = influxql.Reduce(influxql.CloneExpr(v), nv).(*influxql.BooleanLiteral)
+			}
 			influxql.WalkFunc(v, func(n influxql.Node) {
 				switch n.(type) {
 				case *influxql.Call:
-					ok = false
+					if !allowCalls {
+						ok = false
+					}
 				}
 			})
 			return ok, false
